@@ -7,19 +7,20 @@
            REAL `.why` returns (harness walk of the real `ProofTree`).
   Model  : `whyTree` / `buildProofTree` / `level` (ILV.Model.Prov) — mirror of build_proof_tree,
            build_node, prove_body, enumerate_derived_candidates, unify_head, find_matching_tuples.
-  Only property theorems live here; helper lemmas are in ILV.Lemmas.Prov / ILV.Lemmas.ProvBuild.
+  Only property theorems live here; helper lemmas are in ILV.Lemmas.Prov, ProvMatch, ProvBuild, ProvInv, ProvChain.
 -/
-import ILV.Lemmas.Prov
+import ILV.Lemmas.ProvChain
 namespace ILV.Props.C21
 open ILV ILV.Prov
 
-/-- **Checker soundness.** If the derived data `M` contains only derivable facts, every tree
-    accepted by `valid` concludes a derivable fact: per-instance checking of the real `.why`
-    output by `valid` is therefore a proof that the explained tuple has a derivation whose every
-    step is the one the tree shows. -/
+/-- **Checker soundness.** If the derived data `M` contains only derivable facts, every tree without
+    `Truncated` nodes accepted by `valid` concludes a derivable fact: per-instance checking of the
+    real `.why` output by `valid` is therefore a proof that the explained tuple has a derivation whose
+    every step is the one the tree shows. (A `Truncated` node is an explicit "not explained further"
+    marker; trees containing one are partial by their own admission and are C22's concern.) -/
 theorem valid_sound (prog : Program) (base M : DB) (hM : MSound prog base M) (t : Tree)
-    (h : valid prog base M t = true) : Derivable prog base M t.pred t.args :=
-  valid_sound_aux prog base M hM t h
+    (h : valid prog base M t = true) (ht : t.hasTrunc = false) : Derivable prog base M t.pred t.args :=
+  valid_sound_aux prog base M hM t h ht
 
 /-! a concrete non-trivial instance: a two-step derivation with a join, a comparison and a
     negated base atom is accepted, hence its conclusion is derivable. -/
@@ -33,7 +34,7 @@ def exTree : Tree :=
       [.node (.fact .edb) "e" [.i64 1, .i64 3] [], .node (.neg [.conc (.i64 3)]) "f" [.i64 3] []]]
 
 example : Derivable exProg exBase [] "q" [.i64 1, .i64 5] :=
-  valid_sound exProg exBase [] (fun _ _ h => by simp [memL, DB.get] at h) exTree (by decide)
+  valid_sound exProg exBase [] (fun _ _ h => by simp [memL, DB.get] at h) exTree (by decide) (by decide)
 
 /-- the same tree with the refuted choice `Y = 2` (where `f(2)` is stored) is rejected. -/
 example : valid exProg exBase []
@@ -83,5 +84,35 @@ theorem C21_refuted_repeated_var : ¬ C21_statement := by
   have := h w2Prog w2Base w2M "p" [.i64 1] 50 (by decide) (by decide) (by decide)
   revert this
   decide
+
+/-- **C21_partial (build_valid).** For every program in the fragment `c21Fragment` (decidable,
+    ILV.Model.ProvSpec: supported terms; no `_` in heads; safe negation; *negated relations have no
+    derived tuples* — this excludes `neg_over_derived`; *a positive atom over a relation with rules
+    repeats no variable* and has that relation's arity — this excludes `repeated_var_over_derived`; no NaN
+    constant; no variable spelled `_placeholder_…`), every base and derived data without NaN where only
+    relations with rules have derived tuples, every depth limit, every relation and every NaN-free tuple:
+    the tree the model chainer returns — including the handler's fallback root — is accepted by `valid`.
+    No assumption on recursion, on the derived data being correct or complete, or on the tuple being true.
+    Proof: builder invariant (every node of the DAG locally valid, memo table sound) preserved by
+    `build_node` / `prove_body` / the clause loop / the candidate enumerator at every level of the depth
+    tower (ILV.Lemmas.ProvChain.level_ok), then unfolded (`valid_unfold`). -/
+theorem C21_partial (prog : Program) (base M : DB) (rel : String) (tuple : Tuple) (depth : Nat)
+    (hf : c21Fragment prog M = true) (hd : derivedOnlyHeads prog M = true)
+    (hb : goodDB base = true) (hm : goodDB M = true) (ht : tuple.all goodV = true) :
+    valid prog base M (whyTree { rules := prog, base := base, derived := some M, maxDepth := depth } rel tuple) = true :=
+  whyTree_valid prog base M rel tuple depth hf hd hb hm ht
+
+/-- the hypotheses of `C21_partial` are met by a non-trivial recursive program with a join, a
+    comparison, a head constant and a negated stored relation. -/
+def pProg : Program :=
+  [⟨⟨"path", [.var "X", .var "Y"]⟩, [.pos ⟨"e", [.var "X", .var "Y"]⟩]⟩,
+   ⟨⟨"path", [.var "X", .var "Y"]⟩, [.pos ⟨"e", [.var "X", .var "Z"]⟩, .pos ⟨"path", [.var "Z", .var "Y"]⟩]⟩,
+   ⟨⟨"far", [.var "X", .int 7]⟩, [.pos ⟨"path", [.var "X", .var "Y"]⟩, .neg ⟨"f", [.var "Y"]⟩, .cmp (.var "X") .lt (.var "Y")]⟩]
+def pBase : DB := [("e", [[.i64 1, .i64 2], [.i64 2, .i64 3]]), ("f", [[.i64 2]])]
+def pM : DB := [("path", [[.i64 1, .i64 2], [.i64 2, .i64 3], [.i64 1, .i64 3]]), ("far", [[.i64 1, .i64 7], [.i64 2, .i64 7]])]
+
+example : valid pProg pBase pM
+    (whyTree { rules := pProg, base := pBase, derived := some pM, maxDepth := 50 } "far" [.i64 1, .i64 7]) = true :=
+  C21_partial pProg pBase pM "far" [.i64 1, .i64 7] 50 (by decide) (by decide) (by decide) (by decide) (by decide)
 
 end ILV.Props.C21
